@@ -1,7 +1,12 @@
 """C14 - values prepared for writing respect format, range and step."""
 from __future__ import annotations
 
+import base64
+import binascii
+import json
 import math
+import os
+import tempfile
 from decimal import Decimal
 from fractions import Fraction
 
@@ -16,10 +21,21 @@ from aiohomekit.model.services import ServicesTypes
 ID = "C14"
 RULE = ("formats {bool,uint8,uint16,uint32,uint64,int,float} x (minValue,maxValue,minStep) incl. none/partial, minima down to -2^31, steps {1,2,3,5,7,10,0.1,0.5,0.01,0.25}, "
         "magnitudes up to 2^64-1, inputs as int/float/numeric string/garbage/None/nan/inf; boundary-exhaustive around every tie and range end of small grids; "
-        "checked against exact rational arithmetic (fractions.Fraction) on the decimal reading of the inputs. non-trivial = distinct (format class, which of min/max/step set, input kind, outcome class)")
-TRUSTED = ["decimal.Decimal constructor is exact; fractions.Fraction as the exact-arithmetic oracle"]
+        "checked against exact rational arithmetic (fractions.Fraction) on the decimal reading of the inputs; "
+        "the characteristic under test also varies (streams typed / typed-multi / fixture / required): standard types of the table with and without metadata defaults (declaration omitting "
+        "format / minValue / maxValue / minStep), vendor UUIDs, Apple-base UUIDs the table does not know, short / padded / long / lower-case / undashed spellings, built through "
+        "Accessory.create_from_dict, Accessories.from_list / from_file / serialize+from_list, Service.add_char kwargs, the Characteristic constructor, attributes assigned after construction "
+        "(as the BLE transport does), add_service(add_required=True) and every characteristic of every fixture under tests/fixtures - crossed with every format (bool, integer formats, float, "
+        "string, data, tlv8, none declared) and every input class (int, float, Decimal, numeric strings, bool, None, '', words, nan/inf, lists, dicts, tuples, bytes, complex, Fraction, objects; "
+        "base64 / TLV8 well- and ill-formed text) through check_convert_value and single- and multi-item Service.build_update (each item against its own characteristic, addressed to it). "
+        "non-trivial = distinct (format class, which of min/max/step set, input kind, outcome class), for the typed streams also (kind of type, construction path, entry point)")
+TRUSTED = ["decimal.Decimal constructor is exact; fractions.Fraction as the exact-arithmetic oracle",
+           "typed streams: the declared parameters of a characteristic are the harness's own bookkeeping - the declaration, else the default the table of standard types (read as data) gives for the type; "
+           "base64 text validity as read by the stdlib's base64.decodebytes, TLV8 well-formedness by the harness's own item walk"]
 ASSUMPTIONS = ["integer formats: the default 28-digit context is exact on the domain of 64-bit formats (validated by the correspondence up to 2^64, not proved)",
                "float format: the result is compared as the nearest double of the model's rational",
+               "data / tlv8 / string / undeclared formats are outside the property's quantifier: for them only the last clause is checked (text that is not base64 / not well-formed TLV8 fails with FormatError, "
+               "well-formed text is not rejected, nothing but FormatError is raised for str inputs); non-string inputs to data / tlv8 and format names the conversion does not know (the table's 'int32') are counted, not judged",
                "tie direction for a value BELOW the offset (only possible when no minValue is declared and the value is negative) is away from zero; the property's 'ties upward' is checked for values at or above the declared minimum"]
 EXPLANATION = "Lean theorems C14_* over the exact-rational model (grid membership, nearest with ties upward, range, integrality, the six-digit float path with its error bound); differential tie through Service.build_update / check_convert_value with exact rationals"
 
@@ -50,93 +66,129 @@ def exact(fmt, mn, mx, st, v):
     return q
 
 
+_EVNS = {"nan": float("nan"), "inf": float("inf"), "Decimal": Decimal, "Fraction": Fraction, "object": object}
+
+
+def enc(v):
+    """replayable spelling of an input value (our own repr()s, read back by dec())"""
+    if type(v) is object:
+        return "object()"
+    return repr(v)
+
+
+def dec(s):
+    return eval(s, {"__builtins__": {}}, _EVNS)  # noqa: S307 - our own repr()s
+
+
+def judge_num(ctx, pre, case, fmt, mn, mx, st, v, kind, call, sink, model_ok=True, tag=()):
+    """The property's oracle for one numeric preparation, in exact arithmetic.
+
+    `call()` performs the preparation through some public entry point on some characteristic whose DECLARED format /
+    minimum / maximum / step are (fmt, mn, mx, st) by the harness's own bookkeeping; violations are reported under
+    `<pre>/...`; judged cases are appended to `sink` for the differential comparison with the Lean model."""
+    is_int = fmt != "float"
+    try:
+        r = call()
+    except FormatError:
+        r = None
+    except Exception as e:  # noqa: BLE001
+        ctx.violation(pre + "/" + type(e).__name__, f"{fmt} min={mn} max={mx} step={st}: input {v!r} raised {type(e).__name__} (not the library's FormatError)", case)
+        return
+    # convertible?
+    try:
+        dv = Decimal(v)
+        convertible = dv.is_finite()
+    except Exception:  # noqa: BLE001
+        convertible = False
+    okind = "err" if r is None else "ok"
+    ctx.nontrivial.add(tuple(tag) + (fmt if fmt == "float" else "int", mn is not None, mx is not None, st is not None, kind, okind))
+    if not convertible:
+        if r is not None:
+            ctx.violation(pre + "/accepted-garbage", f"unconvertible input {v!r} returned {r!r}", case)
+        ctx.dist[pre + ":unconvertible"] += 1
+        return
+    if r is None:
+        ctx.violation(pre + "/rejected-valid", f"convertible input {v!r} raised FormatError", case)
+        return
+    # ---------------- property oracle in exact arithmetic
+    if not isinstance(r, (int, float)):
+        ctx.violation(pre + ("/not-integer" if is_int else "/not-float"), f"{fmt} format returned {r!r} ({type(r).__name__}) for {v!r}", case)
+        return
+    if isinstance(r, float) and not math.isfinite(r):
+        ctx.violation(pre + "/not-finite", f"{fmt} format returned {r!r} for {v!r}", case)
+        return
+    q = exact(fmt, mn, mx, st, v)
+    got = Fraction(r) if not isinstance(r, float) else Fraction(r)
+    if is_int and not isinstance(r, int):
+        ctx.violation(pre + "/not-integer", f"integer format returned {r!r}", case)
+    if not is_int and not isinstance(r, float):
+        ctx.violation(pre + "/not-float", f"float format returned {r!r}", case)
+    if st:
+        step = Fraction(Decimal(st))
+        off = Fraction(Decimal(mn)) if mn is not None else Fraction(0)
+        x = (q - off) / step
+        lo = math.floor(x)
+        cands = {off + lo * step, off + (lo + 1) * step}
+        dist = {g: abs(g - q) for g in cands}
+        best = min(dist.values())
+        nearest = {g for g, d in dist.items() if d == best}
+        if len(nearest) == 2 and q >= off:
+            nearest = {max(nearest)}  # ties go upward
+        integral = all(z.denominator == 1 for z in (q, off, step))
+        if is_int and integral:
+            if got not in nearest:
+                ctx.violation(pre + "/int-not-nearest-grid", f"{fmt} min={mn} max={mx} step={st}: {v!r} -> {r!r}, nearest grid point(s) {sorted(nearest)}", case)
+        elif not is_int:
+            # six significant digits: a position within 6-digit resolution of a tie may go either way
+            if abs(x - (lo + Fraction(1, 2))) <= max(abs(x), 1) * Fraction(1, 10 ** 5):
+                nearest = set(cands)
+            tgt = max(nearest)
+            scale = max(abs(tgt), abs(q), abs(off), abs(step), Fraction(1, 10 ** 30))
+            if abs(got - tgt) > scale * Fraction(1, 10 ** 5) * 2 and abs(got - min(nearest)) > scale * Fraction(1, 10 ** 5) * 2:
+                ctx.violation(pre + "/float-far-from-grid", f"float min={mn} max={mx} step={st}: {v!r} -> {r!r}, nearest grid point {float(tgt)}", case)
+        # range: when both bounds are on the grid
+        if mn is not None and mx is not None:
+            on_grid = ((Fraction(Decimal(mx)) - off) / step).denominator == 1
+            if on_grid and is_int and integral and not (Fraction(Decimal(mn)) <= got <= Fraction(Decimal(mx))):
+                ctx.violation(pre + "/out-of-range", f"{fmt} [{mn},{mx}] step {st}: {v!r} -> {r!r} outside the range", case)
+    else:
+        if is_int:
+            if abs(got - q) > Fraction(1, 2):
+                ctx.violation(pre + "/int-far", f"{v!r} -> {r!r}", case)
+        elif got != Fraction(float(q)):
+            ctx.violation(pre + "/float-changed", f"no step: {v!r} -> {r!r} but clamped value is {float(q)}", case)
+    if model_ok:
+        cs, os_, ls = sink["int" if is_int else "float"]
+        cs.append(case)
+        os_.append(f"{got.numerator}/{got.denominator}")
+        ls.append(f"cv.num {'int' if is_int else 'float'} {fr(mn)} {fr(mx)} {fr(st)} {fr(v)}")
+    ctx.dist[pre + ":" + ("int" if is_int else "float")] += 1
+
+
 def run(ctx: Ctx, driver: Driver):
     rng = ctx.rng
     svc, c = mkchar()
     for cc in load_corpus(ID):
-        replay(ctx, driver, cc)
+        ctx.evaluations += 1
+        why = replay(ctx, driver, cc)
+        if why:
+            ctx.violation("corpus/regression", f"recorded case fails again: {why}", cc)
     cases, outs, lines = [], [], []
     fcases, fouts, flines = [], [], []
+
+    sink = {"int": (cases, outs, lines), "float": (fcases, fouts, flines)}
 
     def one(fmt, mn, mx, st, v, kind):
         c.format = fmt
         c.minValue, c.maxValue, c.minStep = mn, mx, st
         ctx.evaluations += 1
-        case = {"stream": "num", "format": fmt, "min": repr(mn), "max": repr(mx), "step": repr(st), "value": repr(v)}
-        is_int = fmt != "float"
+        case = {"stream": "num", "format": fmt, "min": repr(mn), "max": repr(mx), "step": repr(st), "value": enc(v)}
         use_build = (ctx.evaluations % 3 == 0)
-        try:
-            if use_build:
-                r = svc.build_update({CharacteristicsTypes.BRIGHTNESS: v})[0][2]
-            else:
-                r = check_convert_value(v, c)
-        except FormatError:
-            out = "FormatError"
-            r = None
-        except Exception as e:  # noqa: BLE001
-            ctx.violation("num/" + type(e).__name__, f"{fmt} min={mn} max={mx} step={st}: input {v!r} raised {type(e).__name__} (not the library's FormatError)", case)
-            return
-        # convertible?
-        try:
-            dv = Decimal(v)
-            convertible = dv.is_finite()
-        except Exception:  # noqa: BLE001
-            convertible = False
-        okind = "err" if r is None else "ok"
-        ctx.nontrivial.add((fmt if fmt == "float" else "int", mn is not None, mx is not None, st is not None, kind, okind))
-        if not convertible:
-            if r is not None:
-                ctx.violation("num/accepted-garbage", f"unconvertible input {v!r} returned {r!r}", case)
-            ctx.dist["num:unconvertible"] += 1
-            return
-        if r is None:
-            ctx.violation("num/rejected-valid", f"convertible input {v!r} raised FormatError", case)
-            return
-        # ---------------- property oracle in exact arithmetic
-        q = exact(fmt, mn, mx, st, v)
-        got = Fraction(r) if not isinstance(r, float) else Fraction(r)
-        if is_int and not isinstance(r, int):
-            ctx.violation("num/not-integer", f"integer format returned {r!r}", case)
-        if not is_int and not isinstance(r, float):
-            ctx.violation("num/not-float", f"float format returned {r!r}", case)
-        if st:
-            step = Fraction(Decimal(st))
-            off = Fraction(Decimal(mn)) if mn is not None else Fraction(0)
-            x = (q - off) / step
-            lo = math.floor(x)
-            cands = {off + lo * step, off + (lo + 1) * step}
-            dist = {g: abs(g - q) for g in cands}
-            best = min(dist.values())
-            nearest = {g for g, d in dist.items() if d == best}
-            if len(nearest) == 2 and q >= off:
-                nearest = {max(nearest)}  # ties go upward
-            integral = all(z.denominator == 1 for z in (q, off, step))
-            if is_int and integral:
-                if got not in nearest:
-                    ctx.violation("num/int-not-nearest-grid", f"{fmt} min={mn} max={mx} step={st}: {v!r} -> {r!r}, nearest grid point(s) {sorted(nearest)}", case)
-            elif not is_int:
-                # six significant digits: a position within 6-digit resolution of a tie may go either way
-                if abs(x - (lo + Fraction(1, 2))) <= max(abs(x), 1) * Fraction(1, 10 ** 5):
-                    nearest = set(cands)
-                tgt = max(nearest)
-                scale = max(abs(tgt), abs(q), abs(off), abs(step), Fraction(1, 10 ** 30))
-                if abs(got - tgt) > scale * Fraction(1, 10 ** 5) * 2 and abs(got - min(nearest)) > scale * Fraction(1, 10 ** 5) * 2:
-                    ctx.violation("num/float-far-from-grid", f"float min={mn} max={mx} step={st}: {v!r} -> {r!r}, nearest grid point {float(tgt)}", case)
-            # range: when both bounds are on the grid
-            if mn is not None and mx is not None:
-                on_grid = ((Fraction(Decimal(mx)) - off) / step).denominator == 1
-                if on_grid and is_int and integral and not (Fraction(Decimal(mn)) <= got <= Fraction(Decimal(mx))):
-                    ctx.violation("num/out-of-range", f"{fmt} [{mn},{mx}] step {st}: {v!r} -> {r!r} outside the range", case)
+        if use_build:
+            call = lambda: svc.build_update({CharacteristicsTypes.BRIGHTNESS: v})[0][2]  # noqa: E731
         else:
-            if is_int:
-                if abs(got - q) > Fraction(1, 2):
-                    ctx.violation("num/int-far", f"{v!r} -> {r!r}", case)
-            elif got != Fraction(float(q)):
-                ctx.violation("num/float-changed", f"no step: {v!r} -> {r!r} but clamped value is {float(q)}", case)
-        (cases if is_int else fcases).append(case)
-        (outs if is_int else fouts).append(f"{got.numerator}/{got.denominator}")
-        (lines if is_int else flines).append(f"cv.num {'int' if is_int else 'float'} {fr(mn)} {fr(mx)} {fr(st)} {fr(v)}")
-        ctx.dist["num:" + ("int" if is_int else "float")] += 1
+            call = lambda: check_convert_value(v, c)  # noqa: E731
+        judge_num(ctx, "num", case, fmt, mn, mx, st, v, kind, call, sink)
 
     # ---- boundary-exhaustive small grids: every tie and range end
     for fmt in ("uint8", "int", "float"):
@@ -191,6 +243,7 @@ def run(ctx: Ctx, driver: Driver):
     ctx.sample(fcases[5])
     compare_with_model(ctx, "num-float", fcases, fouts, flines, driver, canon=canon_float)
     bool_stream(ctx, driver, c)
+    kinds_stream(ctx, driver)
 
 
 def canon_float(s):
@@ -227,11 +280,690 @@ def bool_stream(ctx, driver, c):
     compare_with_model(ctx, "bool", cases, outs, lines, driver)
 
 
-def replay(ctx, driver, cc):
-    svc, c = mkchar()
-    if cc["stream"] != "num":
+# ======================================================================================================================
+# characteristics of every kind, built through the public paths (streams typed / typed-multi / fixture / required)
+# ======================================================================================================================
+# The conversion is a function of (characteristic, input).  The streams above vary the input and the declared
+# (format, minValue, maxValue, minStep) on ONE standard characteristic; here the characteristic itself varies: standard
+# types from the library's table (with and without metadata defaults that apply when the accessory's declaration omits
+# them), vendor specific UUIDs, Apple-base UUIDs the table does not know, in every spelling the library accepts - built
+# through every public construction path - crossed with every input class and every format.  The DECLARED parameters
+# the oracle uses are the harness's own bookkeeping: what the declaration says, else the table's default for the type.
+
+OMIT = "omit"  # in a spec: the key is absent from the accessory's declaration
+BASE_UUID = "-0000-1000-8000-0026BB765291"
+INT_FORMATS = ("uint8", "uint16", "uint32", "uint64", "int")
+NUM_FORMATS = INT_FORMATS + ("float",)
+ALL_FORMATS = ("bool",) + NUM_FORMATS + ("string", "data", "tlv8")
+PATHS = ("from_dict", "from_list", "from_file", "reserialised", "add_char", "ctor", "ble_assign")
+CATS = ("std-meta", "std", "vendor", "apple-unknown")
+PERMS = (["pr", "pw"], ["pr", "pw", "ev"], ["pw"], ["pr", "pw", "ev", "hd"], ["pr"], [])
+VENDOR_TYPES = ("E863F12B-079E-48FF-8F27-9C2605A29F52", "E863F10D-079E-48FF-8F27-9C2605A29F52", "B7DDB9A3-54BB-4572-91D2-F1F5B0510F8C",
+                "E4489BBC-5227-4569-93E5-B345E3E5508F", "1B300BC2-CFFC-47FF-89F9-BD6CCF5F2853", "4AAAF93A-0DEC-11E5-B939-0800200C9A66",
+                "A8F798E0-4A40-11E6-BDF4-0800200C9A66", "34AB8811-AC7F-4340-BAC3-FD6A85F9943B")
+VENDOR_SERVICES = ("E863F007-079E-48FF-8F27-9C2605A29F52", "9715BF53-AB63-4449-8DC7-2785D617390A")
+
+NUM_GARBAGE = ("abc", None, "nan", "NaN", "inf", "-Infinity", "Infinity", float("nan"), float("inf"), float("-inf"), Decimal("NaN"), Decimal("sNaN"),
+               Decimal("-Infinity"), "", " ", "1,5", "12,5", "0x10", [1], [], {"a": 1}, {}, b"5", b"", "1__0", "1 2", "--1", "1e", "e5", (1, 2), 1j,
+               Fraction(1, 2), "maybe", "true", "12abc", "١٢", object())
+BOOL_VALUES = (True, False, 1, 0, "true", "True", "TRUE", "yes", "no", "on", "off", "ON", "t", "f", "y", "n", "1", "0", Decimal(1), Decimal(0), "Yes", "oFF",
+               "2", "", "maybe", None, 1.0, 0.0, "truee", " true", "yes ", [], {}, 2, -1, b"1", "nan", float("nan"), "0x1", Decimal("1.0"), "abc", [1], object())
+PASS_VALUES = ("abc", "", "name", 5, 1.5, None, True, [1], {"a": 1})
+
+
+def _std_table():
+    """the library's table of standard characteristic types, read as DATA (declared defaults per type) by the harness's own lookup"""
+    from aiohomekit.model.characteristics.data import characteristics as table
+
+    return table
+
+
+def _svc_table():
+    from aiohomekit.model.services.data import services as table
+
+    return table
+
+
+def canon_uuid(t):
+    """the harness's own reading of a type spelling: short ids are Apple-base UUIDs, 32 hex digits are an undashed UUID"""
+    t = t.upper()
+    if len(t) <= 8:
+        return t.rjust(8, "0") + BASE_UUID
+    if len(t) == 32 and "-" not in t:
+        return f"{t[:8]}-{t[8:12]}-{t[12:16]}-{t[16:20]}-{t[20:]}"
+    return t
+
+
+def spell(rng, canon):
+    """one of the spellings of a type that the library accepts"""
+    opts = [canon, canon, canon.lower()]
+    if canon.endswith(BASE_UUID):
+        short = canon[:8]
+        opts += [short, short.lower(), short.lstrip("0") or "0", (short.lstrip("0") or "0").lower()]
+    else:
+        opts += [canon.replace("-", ""), canon.replace("-", "").lower()]
+    return rng.choice(opts)
+
+
+def pick_type(rng, cat, taken=()):
+    table = _std_table()
+    for _ in range(200):
+        if cat == "std-meta":
+            canon = rng.choice(sorted(t for t in table if any(k in table[t] for k in ("min_value", "max_value", "min_step"))))
+        elif cat == "std":
+            canon = rng.choice(sorted(table))
+        elif cat == "vendor":
+            if rng.random() < 0.5:
+                canon = rng.choice(VENDOR_TYPES)
+            else:
+                canon = "%08X-%04X-%04X-%04X-%012X" % (rng.getrandbits(32), rng.getrandbits(16), rng.getrandbits(16), rng.getrandbits(16), rng.getrandbits(48))
+        else:
+            canon = "%08X" % rng.choice([rng.randrange(1, 0x1000), rng.randrange(0x1000, 0x100000), rng.getrandbits(32)]) + BASE_UUID
+        if canon in taken:
+            continue
+        if cat in ("vendor", "apple-unknown") and canon in table:
+            continue
+        return canon
+    raise RuntimeError("no type left")
+
+
+def declared(ch):
+    """(format, minValue, maxValue, minStep) the characteristic declares: the declaration, else the table default of its type"""
+    tab = _std_table().get(canon_uuid(ch["type"]), {})
+    return tuple(tab.get(tk) if ch[k] == OMIT else ch[k] for k, tk in (("fmt", "format"), ("min", "min_value"), ("max", "max_value"), ("step", "min_step")))
+
+
+def _den_ok(x):
+    return x is None or Fraction(Decimal(x)).denominator <= 2
+
+
+def gen_char(rng, cat, fmt, iid, path, taken=(), params=None):
+    canon = pick_type(rng, cat, taken)
+    ch = {"type": spell(rng, canon), "iid": iid, "perms": list(rng.choice(PERMS)), "fmt": fmt, "cat": cat, "min": OMIT, "max": OMIT, "step": OMIT}
+    eff = declared(ch)[0]
+    if eff in NUM_FORMATS:
+        for _ in range(20):
+            if params is not None:
+                ch["min"], ch["max"], ch["step"] = params
+            elif eff != "float":
+                ch["min"] = rng.choice([OMIT, OMIT, None, 0, -100, -2 ** 31, 1, 16])
+                ch["max"] = rng.choice([OMIT, OMIT, None, 100, 255, 65535, 2 ** 32 - 1, 2 ** 64 - 1])
+                ch["step"] = rng.choice([OMIT, OMIT, None, None, 1, 1, 2, 5, 10, 3, 7, 0.5, 0])
+            else:
+                ch["min"] = rng.choice([OMIT, OMIT, None, 0, -100, 10, 7.2, -0.5, 0.1])
+                ch["max"] = rng.choice([OMIT, OMIT, None, 100, 35, 38, 1000000.5, 359.9])
+                ch["step"] = rng.choice([OMIT, OMIT, OMIT, None, 1, 2, 5, 10, 0.1, 0.5, 0.01, 0.25, 3, 7, 0.3, 0, 0.0])
+            if path == "reserialised":
+                # "declares none" cannot be written down in the serialised form: absent there means the type's default
+                for k in ("min", "max", "step"):
+                    if ch[k] is None:
+                        ch[k] = OMIT
+            _, mn, mx, _ = declared(ch)
+            if mn is None or mx is None or mn <= mx:
+                break
+            params = None
+        else:
+            ch["min"], ch["max"], ch["step"] = 0, 100, 1
+    elif eff == "bool" and rng.random() < 0.4:
+        ch["min"], ch["max"], ch["step"] = 0, 1, 1  # real accessories declare these on bool characteristics
+    if rng.random() < 0.3:
+        ch["description"] = "d%d" % iid
+    if rng.random() < 0.2:
+        ch["unit"] = rng.choice(["celsius", "percentage", "arcdegrees", "lux", "seconds"])
+    return ch
+
+
+def acc_dict(spec):
+    """the accessory's declaration as an entity-map dict (what an accessory sends / what is stored)"""
+    chars = []
+    for ch in spec["chars"]:
+        d = {"type": ch["type"], "iid": ch["iid"], "perms": list(ch["perms"])}
+        if ch["fmt"] != OMIT:
+            d["format"] = ch["fmt"]
+        for k, dk in (("min", "minValue"), ("max", "maxValue"), ("step", "minStep"), ("description", "description"), ("unit", "unit")):
+            if ch.get(k, OMIT) != OMIT:
+                d[dk] = ch[k]
+        chars.append(d)
+    return {"aid": spec["aid"], "services": [
+        {"iid": 1, "type": "3E", "characteristics": [{"type": "23", "iid": 2, "perms": ["pr"], "format": "string", "value": "acc"}]},
+        {"iid": spec["siid"], "type": spec["stype"], "characteristics": chars}]}
+
+
+def build(spec):
+    """-> (service, [characteristic per spec char]) through the construction path the spec names"""
+    from aiohomekit.model import Accessories
+    from aiohomekit.model.characteristics import Characteristic
+
+    path = spec["path"]
+    if path in ("from_dict", "from_list", "from_file", "reserialised"):
+        d = acc_dict(spec)
+        if path == "from_dict":
+            acc = Accessory.create_from_dict(d)
+        elif path == "from_list":
+            acc = Accessories.from_list([d]).aid(spec["aid"])
+        elif path == "reserialised":
+            acc = Accessories.from_list(Accessories.from_list([d]).serialize()).aid(spec["aid"])
+        else:
+            fd, fn = tempfile.mkstemp(suffix=".json", prefix="c14_")
+            try:
+                with os.fdopen(fd, "w") as f:
+                    json.dump([d], f)
+                acc = Accessories.from_file(fn).aid(spec["aid"])
+            finally:
+                os.unlink(fn)
+        svc = acc.services.iid(spec["siid"])
+        return svc, [svc.get_char_by_iid(ch["iid"]) for ch in spec["chars"]]
+    acc = Accessory(spec["aid"])
+    svc = acc.add_service(spec["stype"], iid=spec["siid"])
+    chars = []
+    for ch in spec["chars"]:
+        if path == "ble_assign":
+            # the way the BLE transport fills the model: construct by type, then assign what the signature read returned
+            hc = svc.add_char(ch["type"], iid=ch["iid"])
+            hc.perms = list(ch["perms"])
+            for k, attr in (("fmt", "format"), ("step", "minStep"), ("min", "minValue"), ("max", "maxValue")):
+                if ch[k] != OMIT:
+                    setattr(hc, attr, ch[k])
+        else:
+            kw = {"iid": ch["iid"], "perms": list(ch["perms"])}
+            for k, kk in (("fmt", "format"), ("min", "min_value"), ("max", "max_value"), ("step", "min_step"), ("description", "description"), ("unit", "unit")):
+                if ch.get(k, OMIT) != OMIT:
+                    kw[kk] = ch[k]
+            hc = svc.add_char(ch["type"], **kw) if path == "add_char" else Characteristic(svc, ch["type"], **kw)
+        chars.append(hc)
+    return svc, chars
+
+
+def ref_text_valid(fmt, v):
+    """reference for data / tlv8 inputs given as str: base64 text (the stdlib's reading), tlv8 also a well-formed TLV8 item sequence"""
+    try:
+        raw = base64.decodebytes(v.encode())
+    except binascii.Error:
+        return False
+    if fmt == "tlv8":
+        i = 0
+        while i < len(raw):
+            if i + 2 > len(raw) or i + 2 + raw[i + 1] > len(raw):
+                return False
+            i += 2 + raw[i + 1]
+    return True
+
+
+def text_values(rng):
+    """inputs for data / tlv8: base64 of arbitrary bytes, of well-formed and of malformed TLV8, broken base64, and non-strings"""
+    out = ["", "AQ==", "AQEB", "a", "abc", "YWJ", "AQ=", "A", "AQ", "=", "!!!!", "AQEB\n", " AQEB ", "AQID", "/w==", "AQ==AQ=="]
+    for _ in range(4):
+        items = b"".join(bytes([rng.randrange(256), n]) + bytes(rng.randrange(256) for _ in range(n)) for n in [rng.choice([0, 1, 2, 5])] * rng.randint(0, 3))
+        out.append(base64.b64encode(items).decode())
+        out.append(base64.b64encode(items + bytes([rng.randrange(256)])).decode())          # lone trailing type byte
+        out.append(base64.b64encode(items + bytes([1, rng.randint(2, 9), 7])).decode())     # value shorter than its declared length
+        out.append(base64.b64encode(bytes(rng.randrange(256) for _ in range(rng.randint(0, 12)))).decode())
+        out.append(base64.b64encode(items).decode().rstrip("=")[:-1])
+    return out + [None, 5, 1.5, b"AQ==", [], {}]
+
+
+def num_values(rng, fmt, mn, mx, st, n):
+    """inputs for a numeric format: the classes of the `num` stream plus Decimal inputs and the neighbourhood of the declared range ends / ties"""
+    out = []
+    for _ in range(n):
+        if fmt != "float":
+            v = rng.choice([rng.randint(-10 ** 3, 10 ** 3), rng.randint(0, 2 ** 64), rng.randint(0, 10 ** 7), rng.uniform(-50, 300), str(rng.randint(0, 10 ** 6)),
+                            rng.randint(-20, 20) + 0.5, rng.randint(0, 50) / 4, True, False, "  42 ", "1e3", "-7", "+5", "5.", ".5",
+                            Decimal(rng.randint(-500, 70000)), Decimal(str(round(rng.uniform(-50, 300), 2))), Decimal("1E+2")])
+        else:
+            v = rng.choice([rng.uniform(-200, 200), round(rng.uniform(0, 40), 1), round(rng.uniform(0, 40), 2), rng.randint(-50, 400), rng.uniform(0, 1e7), "%.3f" % rng.uniform(0, 100),
+                            rng.choice([27.25, 28.5, 0.05, 0.15, 2.5, -2.5, 0.5]), rng.uniform(0, 1e-4), True, " 42 ", "1e3", "-7.25", ".5",
+                            Decimal(str(round(rng.uniform(0, 400), 3))), Decimal(rng.randint(-50, 400))])
+        out.append(v)
+    # the neighbourhood of the declared range ends and of a tie of the declared grid
+    near = []
+    for b in (mn, mx):
+        if b is not None:
+            near += [Fraction(Decimal(b)) + d for d in (0, -1, 1)]
+    if st:
+        off = Fraction(Decimal(mn)) if mn is not None else Fraction(0)
+        step = Fraction(Decimal(st))
+        k = rng.randint(0, 40)
+        near += [off + k * step, off + k * step + step / 2, off + k * step + step / 2 - Fraction(1, 1000), off + k * step + step / 4]
+    if near:
+        for y in rng.sample(near, min(len(near), max(2, n // 2))):
+            out.append(int(y) if y.denominator == 1 else float(y))
+    return out
+
+
+def judge_bool(ctx, pre, case, v, call, bsink, tag=()):
+    try:
+        r = call()
+        out = str(r)
+        if r not in (0, 1) or isinstance(r, bool):
+            ctx.violation(pre + "/bool-not-0-1", f"bool format returned {r!r} for {v!r}", case)
+    except FormatError:
+        out = "err"
+    except Exception as e:  # noqa: BLE001
+        ctx.violation(pre + "/" + type(e).__name__, f"bool input {v!r} raised {type(e).__name__} (not the library's FormatError)", case)
+        return
+    ctx.nontrivial.add(tuple(tag) + ("bool", out, type(v).__name__))
+    ctx.dist[pre + ":bool"] += 1
+    cs, os_, ls = bsink
+    cs.append(case)
+    os_.append(out)
+    ls.append("cv.bool " + (str(v).encode().hex() or "-"))
+
+
+def judge_text(ctx, pre, case, fmt, v, call, tag=()):
+    try:
+        call()
+        out = "ok"
+    except FormatError:
+        out = "err"
+    except Exception as e:  # noqa: BLE001
+        if not isinstance(v, str):
+            # a non-string for a base64 format: outside the declared parameter type and outside the property's formats - observed, not judged
+            ctx.dist[f"{pre}:{fmt}-nonstr:{type(e).__name__}"] += 1
+            return
+        ctx.violation(pre + "/" + type(e).__name__, f"{fmt} input {v!r} raised {type(e).__name__} (not the library's FormatError)", case)
+        return
+    if not isinstance(v, str):
+        ctx.dist[f"{pre}:{fmt}-nonstr:{out}"] += 1
+        return
+    valid = ref_text_valid(fmt, v)
+    ctx.nontrivial.add(tuple(tag) + (fmt, valid, out))
+    ctx.dist[f"{pre}:{fmt}:{out}"] += 1
+    if valid and out == "err":
+        ctx.violation(pre + "/rejected-valid", f"{fmt}: well-formed input {v!r} raised FormatError", case)
+    if not valid and out == "ok":
+        ctx.violation(pre + "/accepted-garbage", f"{fmt}: input {v!r} is not base64 text" + (" of a well-formed TLV8" if fmt == "tlv8" else "") + " but was accepted", case)
+
+
+def judge_pass(ctx, pre, case, fmt, v, call, tag=()):
+    """formats the conversion does not touch (string, none declared, names it does not know): nothing but the library's FormatError may come out"""
+    try:
+        call()
+        out = "ok"
+    except FormatError:
+        out = "err"
+    except Exception as e:  # noqa: BLE001
+        ctx.violation(pre + "/" + type(e).__name__, f"format {fmt!r}: input {v!r} raised {type(e).__name__} (not the library's FormatError)", case)
+        return
+    ctx.nontrivial.add(tuple(tag) + (str(fmt), out))
+    ctx.dist[f"{pre}:untouched-format:{fmt}"] += 1
+
+
+class Sinks:
+    def __init__(self):
+        self.num = {"int": ([], [], []), "float": ([], [], [])}
+        self.bool = ([], [], [])
+
+    def compare(self, ctx, driver, name):
+        compare_with_model(ctx, name + "-int", *self.num["int"], driver)
+        compare_with_model(ctx, name + "-float", *self.num["float"], driver, canon=canon_float)
+        compare_with_model(ctx, name + "-bool", *self.bool, driver)
+
+
+def judge_any(ctx, pre, case, decl, v, kind, call, sinks, tag=()):
+    """route one preparation to the oracle of the declared format"""
+    fmt, mn, mx, st = decl
+    ctx.evaluations += 1
+    if fmt in NUM_FORMATS:
+        if mn is not None and mx is not None and mn > mx:
+            ctx.dist[pre + ":empty-range-skipped"] += 1
+            return
+        model_ok = fmt == "float" or all(_den_ok(x) for x in (mn, mx, st))
+        judge_num(ctx, pre, case, fmt, mn, mx, st, v, kind, call, sinks.num, model_ok=model_ok, tag=tag)
+    elif fmt == "bool":
+        judge_bool(ctx, pre, case, v, call, sinks.bool, tag)
+    elif fmt in ("data", "tlv8"):
+        judge_text(ctx, pre, case, fmt, v, call, tag)
+    else:
+        judge_pass(ctx, pre, case, fmt, v, call, tag)
+
+
+def values_for(rng, decl, n_good, n_bad):
+    """(value, kind) inputs for a characteristic declaring `decl`: every class of input, the error classes sampled `n_bad` at a time (None = all)"""
+    fmt, mn, mx, st = decl
+    if fmt in NUM_FORMATS:
+        bad = list(NUM_GARBAGE) if n_bad is None else rng.sample(NUM_GARBAGE, n_bad)
+        return [(v, type(v).__name__) for v in num_values(rng, fmt, mn, mx, st, n_good)] + [(v, "garbage") for v in bad]
+    if fmt == "bool":
+        vals = list(BOOL_VALUES) if n_bad is None else rng.sample(BOOL_VALUES, min(len(BOOL_VALUES), n_good + n_bad))
+        return [(v, type(v).__name__) for v in vals]
+    if fmt in ("data", "tlv8"):
+        vals = text_values(rng)
+        if n_bad is not None:
+            vals = rng.sample(vals, min(len(vals), n_good + n_bad))
+        return [(v, type(v).__name__) for v in vals]
+    vals = list(PASS_VALUES) if n_bad is None else rng.sample(PASS_VALUES, 4)
+    return [(v, type(v).__name__) for v in vals]
+
+
+def prepare(svc, char, aid, iid, entry, key, v, holder):
+    """one preparation through a public entry point; for build_update the whole result is kept for the target check"""
+    if entry == "check":
+        return check_convert_value(v, char)
+    res = svc.build_update({key: v})
+    holder["res"] = res
+    return res[0][2]
+
+
+def check_target(ctx, pre, case, holder, aid, iid):
+    """build_update renders (aid, iid, value): the prepared value must be addressed to the characteristic the caller named"""
+    res = holder.get("res")
+    if res is None:
+        return
+    try:
+        ok = len(res) == 1 and tuple(res[0][:2]) == (aid, iid)
+    except Exception:  # noqa: BLE001
+        ok = False
+    if not ok:
+        ctx.violation(pre + "/build-wrong-target", f"build_update for characteristic aid={aid} iid={iid} rendered {res!r}", case)
+
+
+def locate(ctx, n0, where):
+    """say in the violation text which characteristic / entry point it was"""
+    for x in ctx.violations[n0:]:
+        x["what"] = where + x["what"]
+
+
+def typed_one(ctx, spec, built, ci, entry, key, v, kind, sinks):
+    svc, chars = built
+    ch = spec["chars"][ci]
+    case = {"stream": "typed", "spec": spec, "char": ci, "entry": entry, "key": key, "value": enc(v)}
+    holder = {}
+    n0 = len(ctx.violations)
+    judge_any(ctx, "typed", case, declared(ch), v, kind, lambda: prepare(svc, chars[ci], spec["aid"], ch["iid"], entry, key, v, holder), sinks,
+              tag=("typed", ch["cat"], spec["path"], entry))
+    check_target(ctx, "typed", case, holder, spec["aid"], ch["iid"])
+    locate(ctx, n0, f"{ch['cat']} type {ch['type']} built through {spec['path']}, {'Service.build_update' if entry == 'build' else 'check_convert_value'}: ")
+    ctx.dist["typed:path:" + spec["path"]] += 1
+    ctx.dist["typed:type:" + ch["cat"]] += 1
+
+
+def convertible_ref(decl, v):
+    """does the property call `v` convertible for a characteristic declaring `decl`?  (None = the harness has no reference for this format)"""
+    fmt = decl[0]
+    if fmt in NUM_FORMATS:
+        try:
+            return Decimal(v).is_finite()
+        except Exception:  # noqa: BLE001
+            return False
+    if fmt in ("data", "tlv8") and isinstance(v, str):
+        return ref_text_valid(fmt, v)
+    return None
+
+
+def typed_multi(ctx, spec, built, payload, sinks):
+    """one build_update call naming several characteristics of the service: every item is prepared against ITS OWN characteristic,
+    in the order given; one unconvertible item fails the call with FormatError"""
+    svc, chars = built
+    case = {"stream": "typed-multi", "spec": spec, "payload": [[ci, key, enc(v)] for ci, key, v in payload]}
+    decls = [declared(spec["chars"][ci]) for ci, _, _ in payload]
+    refs = [convertible_ref(d, v) for d, (_, _, v) in zip(decls, payload)]
+    ctx.evaluations += 1
+    ctx.dist["typed:multi"] += 1
+    try:
+        res = svc.build_update({key: v for _, key, v in payload})
+        exc = None
+    except Exception as e:  # noqa: BLE001
+        res, exc = None, e
+    if exc is not None and not isinstance(exc, FormatError):
+        ctx.violation("typed/multi/" + type(exc).__name__, f"build_update of {len(payload)} items raised {type(exc).__name__} (not the library's FormatError)", case)
+        return
+    if any(r is False for r in refs):
+        if exc is None:
+            ctx.violation("typed/multi/accepted-garbage", f"build_update with an unconvertible item returned {res!r}", case)
+        return
+    if exc is not None:
+        if all(r is True for r in refs):
+            ctx.violation("typed/multi/rejected-valid", "build_update of convertible items raised FormatError", case)
+        return
+    want = [(spec["aid"], spec["chars"][ci]["iid"]) for ci, _, _ in payload]
+    try:
+        targets = [tuple(x[:2]) for x in res]
+    except Exception:  # noqa: BLE001
+        targets = None
+    if targets != want:
+        ctx.violation("typed/multi/build-wrong-target", f"build_update for {want} rendered {res!r}", case)
+        return
+    for (ci, key, v), d, item in zip(payload, decls, res):
+        if d[0] in NUM_FORMATS or d[0] == "bool":
+            ctx.evaluations -= 1  # counted once for the call
+            judge_any(ctx, "typed/multi", case, d, v, "multi", lambda item=item: item[2], sinks, tag=("typed-multi", spec["chars"][ci]["cat"], spec["path"]))
+
+
+def gen_spec(rng, path, cats, fmts, params=None):
+    siid = rng.randint(8, 60)
+    stype = rng.choice(["43", "4A", "0000004A", "00000049-0000-1000-8000-0026BB765291", "b7", rng.choice(VENDOR_SERVICES), rng.choice(VENDOR_SERVICES).lower()])
+    spec = {"path": path, "aid": rng.choice([1, 1, 2, 7, 99, 2 ** 31]), "siid": siid, "stype": stype, "chars": []}
+    taken = {"00000023" + BASE_UUID}
+    for i, (cat, fmt) in enumerate(zip(cats, fmts)):
+        ch = gen_char(rng, cat, fmt, siid + 1 + i, path, taken, params)
+        taken.add(canon_uuid(ch["type"]))
+        spec["chars"].append(ch)
+    return spec
+
+
+def safe_build(ctx, pre, spec):
+    try:
+        return build(spec)
+    except Exception as e:  # noqa: BLE001
+        ctx.evaluations += 1
+        ctx.violation(pre + "/construct/" + type(e).__name__, f"constructing a characteristic from a well-formed declaration through {spec['path']} raised {type(e).__name__}: {e}",
+                      {"stream": "typed", "spec": spec, "char": 0, "entry": "check", "key": spec["chars"][0]["type"], "value": "0"})
         return None
-    ev = lambda s: eval(s, {"__builtins__": {}}, {"nan": float("nan"), "inf": float("inf")})  # noqa: E731,S307 - our own repr()s
+
+
+def exercise(ctx, rng, spec, sinks, n_good, n_bad):
+    built = safe_build(ctx, "typed", spec)
+    if built is None:
+        return
+    for ci, ch in enumerate(spec["chars"]):
+        decl = declared(ch)
+        canon = canon_uuid(ch["type"])
+        for j, (v, kind) in enumerate(values_for(rng, decl, n_good, n_bad)):
+            entry = "check" if (spec["path"] == "ctor" or (j + ci) % 2 == 0) else "build"
+            typed_one(ctx, spec, built, ci, entry, spell(rng, canon), v, kind, sinks)
+    if len(spec["chars"]) > 1 and spec["path"] != "ctor":
+        order = list(range(len(spec["chars"])))
+        bad_at = None
+        for rnd in range(3):
+            rng.shuffle(order)
+            if rnd == 2:  # ... and once with one unconvertible item somewhere
+                bad_at = rng.choice(order)
+            payload = [(ci, spell(rng, canon_uuid(spec["chars"][ci]["type"])), pick_item(rng, declared(spec["chars"][ci]), ci == bad_at)) for ci in order]
+            typed_multi(ctx, spec, built, payload, sinks)
+
+
+def pick_item(rng, decl, bad):
+    """an input for one item of a multi-item update: convertible by the harness's reference (or unconvertible if `bad` and the format has such inputs)"""
+    fmt = decl[0]
+    if fmt in ("data", "tlv8"):
+        vals = [v for v in text_values(rng) if isinstance(v, str)]
+        pool = [v for v in vals if ref_text_valid(fmt, v) != bad]
+        return rng.choice(pool or vals)
+    if fmt in NUM_FORMATS:
+        if bad:
+            return rng.choice(NUM_GARBAGE)
+        return rng.choice(num_values(rng, fmt, decl[1], decl[2], decl[3], 3))
+    if fmt == "bool":
+        return rng.choice(BOOL_VALUES)
+    return rng.choice(PASS_VALUES)
+
+
+def fixture_dir():
+    import aiohomekit
+
+    return os.path.join(os.path.dirname(os.path.dirname(os.path.abspath(aiohomekit.__file__))), "tests", "fixtures")
+
+
+def fixture_chars(fn):
+    """the harness's own reading of a fixture: [(aid, siid, char dict as a spec char, may use build_update)]"""
+    with open(os.path.join(fixture_dir(), fn), encoding="utf-8") as f:
+        raw = json.load(f)
+    out = []
+    for a in raw:
+        for s in a["services"]:
+            types = [canon_uuid(c["type"]) for c in s["characteristics"]]
+            for c in s["characteristics"]:
+                canon = canon_uuid(c["type"])
+                ch = {"type": c["type"], "iid": c["iid"], "fmt": c["format"] if "format" in c else OMIT, "min": c["minValue"] if "minValue" in c else OMIT,
+                      "max": c["maxValue"] if "maxValue" in c else OMIT, "step": c["minStep"] if "minStep" in c else OMIT,
+                      "cat": "std" if canon in _std_table() else ("apple-unknown" if canon.endswith(BASE_UUID) else "vendor")}
+                out.append((a["aid"], s["iid"], ch, types.count(canon) == 1))
+    return out
+
+
+def fixture_one(ctx, accs, fn, aid, siid, ch, entry, key, v, kind, sinks):
+    svc = accs.aid(aid).services.iid(siid)
+    char = svc.get_char_by_iid(ch["iid"])
+    case = {"stream": "fixture", "file": fn, "aid": aid, "siid": siid, "iid": ch["iid"], "entry": entry, "key": key, "value": enc(v)}
+    holder = {}
+    n0 = len(ctx.violations)
+    judge_any(ctx, "fixture", case, declared(ch), v, kind, lambda: prepare(svc, char, aid, ch["iid"], entry, key, v, holder), sinks, tag=("fixture", ch["cat"], entry))
+    check_target(ctx, "fixture", case, holder, aid, ch["iid"])
+    locate(ctx, n0, f"{fn} aid={aid} iid={ch['iid']} ({ch['cat']} type {ch['type']}), {'Service.build_update' if entry == 'build' else 'check_convert_value'}: ")
+    ctx.dist["fixture:type:" + ch["cat"]] += 1
+
+
+def load_fixture(fn):
+    from aiohomekit.model import Accessories
+
+    return Accessories.from_file(os.path.join(fixture_dir(), fn))
+
+
+def required_one(ctx, stype, name, ctype, entry, v, kind, sinks):
+    """a service created with its required characteristics (every parameter comes from the library's tables)"""
+    ch = {"type": ctype, "fmt": OMIT, "min": OMIT, "max": OMIT, "step": OMIT}
+    case = {"stream": "required", "stype": stype, "name": name, "ctype": ctype, "entry": entry, "value": enc(v)}
+    try:
+        acc = Accessory.create_with_info(3, "n", "m", "mo", "sn", "1")
+        svc = acc.add_service(stype, name=name, add_required=True)
+        char = svc[ctype]
+    except Exception as e:  # noqa: BLE001
+        ctx.evaluations += 1
+        ctx.violation("required/construct/" + type(e).__name__, f"creating service {stype} with its required characteristics raised {type(e).__name__}: {e}", case)
+        return
+    holder = {}
+    judge_any(ctx, "required", case, declared(ch), v, kind, lambda: prepare(svc, char, 3, char.iid, entry, ctype, v, holder), sinks, tag=("required", entry))
+    if holder.get("res") is not None and (len(holder["res"]) != 1 or holder["res"][0][0] != 3):
+        ctx.violation("required/build-wrong-target", f"build_update rendered {holder['res']!r}", case)
+
+
+def kinds_stream(ctx, driver):
+    rng = ctx.rng
+    sinks = Sinks()
+    # ---- the cross, deterministic in its coverage: construction path x kind of type x format (incl. none declared) with EVERY input of the format's classes
+    k = 0
+    for path in PATHS:
+        for cat in CATS:
+            for fmt in ALL_FORMATS + (OMIT,):
+                k += 1
+                params = ((OMIT, OMIT, OMIT), (0, 100, 1), (None, None, None))[k % 3]
+                spec = gen_spec(rng, path, [cat], [fmt], params)
+                exercise(ctx, rng, spec, sinks, 3, None)
+    ctx.dist["typed:cross-accessories"] = k
+    # ---- random accessories: 1..3 characteristics of different kinds in one service, sampled inputs, multi-item updates
+    for _ in range(ctx.budget(450, 12000)):
+        n = rng.choice([1, 2, 2, 3])
+        cats = [rng.choice(CATS) for _ in range(n)]
+        fmts = [rng.choice(ALL_FORMATS + NUM_FORMATS + (OMIT, "float", "bool")) for _ in range(n)]
+        spec = gen_spec(rng, rng.choice(PATHS), cats, fmts)
+        exercise(ctx, rng, spec, sinks, 5, 5)
+    if sinks.num["int"][0]:
+        ctx.sample(sinks.num["int"][0][len(sinks.num["int"][0]) // 2])
+    sinks.compare(ctx, driver, "typed")
+    # ---- the repository's fixtures: real accessory databases with standard and vendor specific characteristics
+    fsinks = Sinks()
+    try:
+        names = sorted(f for f in os.listdir(fixture_dir()) if f.endswith(".json"))
+    except OSError:
+        names = []
+        ctx.notes.append("fixture stream: tests/fixtures not found next to the package, stream not run")
+    for fn in names:
+        try:
+            chars = fixture_chars(fn)
+        except Exception as e:  # noqa: BLE001
+            ctx.notes.append(f"fixture stream: {fn} not readable as plain JSON by the harness ({type(e).__name__}), skipped")
+            continue
+        try:
+            accs = load_fixture(fn)
+        except Exception as e:  # noqa: BLE001
+            ctx.evaluations += 1
+            ctx.violation("fixture/construct/" + type(e).__name__, f"loading {fn} raised {type(e).__name__}: {e}", {"stream": "fixture", "file": fn, "load": True})
+            continue
+        for aid, siid, ch, unique in chars:
+            decl = declared(ch)
+            canon = canon_uuid(ch["type"])
+            full = ctx.thorough()
+            for j, (v, kind) in enumerate(values_for(rng, decl, 4, None if full else 6)):
+                entry = "build" if (unique and j % 2 == 0) else "check"
+                fixture_one(ctx, accs, fn, aid, siid, ch, entry, spell(rng, canon), v, kind, fsinks)
+        ctx.dist["fixture:files"] += 1
+    fsinks.compare(ctx, driver, "fixture")
+    # ---- services created with their required characteristics
+    rsinks = Sinks()
+    svc_table = _svc_table()
+    for stype in sorted(svc_table):
+        for ctype in svc_table[stype]["required"]:
+            ch = {"type": ctype, "fmt": OMIT, "min": OMIT, "max": OMIT, "step": OMIT}
+            for j, (v, kind) in enumerate(values_for(rng, declared(ch), 3, 4)):
+                required_one(ctx, spell(rng, stype), rng.choice([None, "svc"]), spell(rng, ctype), "build" if j % 2 else "check", v, kind, rsinks)
+    rsinks.compare(ctx, driver, "required")
+    untouched = sorted(k.split(":")[-1] for k in ctx.dist if ":untouched-format:" in k and k.split(":")[-1] not in ("string", "None"))
+    if untouched:
+        ctx.notes.append("formats met on characteristics that the conversion passes through untouched (outside the property's formats; not judged beyond the exception rule): "
+                         + ", ".join(sorted(set(untouched))))
+    nonstr = sorted(k for k in ctx.dist if "-nonstr:" in k and not k.endswith(":err") and not k.endswith(":ok"))
+    if nonstr:
+        ctx.notes.append("non-string inputs to data/tlv8 characteristics leave with an exception other than FormatError (outside the property's formats; observed, not judged): " + ", ".join(nonstr))
+
+
+def replay_kinds(ctx, cc):
+    sinks = Sinks()
+    stream = cc["stream"]
+    if stream == "typed":
+        built = safe_build(ctx, "typed", cc["spec"])
+        if built is not None:
+            typed_one(ctx, cc["spec"], built, cc["char"], cc["entry"], cc["key"], dec(cc["value"]), "replay", sinks)
+    elif stream == "typed-multi":
+        built = safe_build(ctx, "typed", cc["spec"])
+        if built is not None:
+            typed_multi(ctx, cc["spec"], built, [(ci, key, dec(v)) for ci, key, v in cc["payload"]], sinks)
+    elif stream == "fixture":
+        if cc.get("load"):
+            load_fixture(cc["file"])
+            return
+        accs = load_fixture(cc["file"])
+        for aid, siid, ch, _ in fixture_chars(cc["file"]):
+            if (aid, siid, ch["iid"]) == (cc["aid"], cc["siid"], cc["iid"]):
+                fixture_one(ctx, accs, cc["file"], aid, siid, ch, cc["entry"], cc["key"], dec(cc["value"]), "replay", sinks)
+                break
+    elif stream == "required":
+        required_one(ctx, cc["stype"], cc["name"], cc["ctype"], cc["entry"], dec(cc["value"]), "replay", sinks)
+
+
+def replay(ctx, driver, cc):
+    stream = cc.get("stream")
+    if stream in ("typed", "typed-multi", "fixture", "required"):
+        sub = Ctx(ctx.pid, ctx.tier, ctx.seed)
+        try:
+            replay_kinds(sub, cc)
+        except Exception as e:  # noqa: BLE001
+            return f"replay could not rebuild the case: {type(e).__name__}: {e}"
+        return "; ".join(f"{v['signature']}: {v['what']}" for v in sub.violations[:3]) or None
+    svc, c = mkchar()
+    if stream == "bool":
+        c.format = "bool"
+        v = dec(cc["value"])
+        try:
+            r = check_convert_value(v, c)
+        except FormatError:
+            return None
+        except Exception as e:  # noqa: BLE001
+            return f"raised {type(e).__name__}"
+        return None if (r in (0, 1) and not isinstance(r, bool)) else f"bool format returned {r!r}"
+    if stream != "num":
+        return None
+    ev = dec
     c.format = cc["format"]
     c.minValue, c.maxValue, c.minStep = ev(cc["min"]), ev(cc["max"]), ev(cc["step"])
     v = ev(cc["value"])
@@ -243,4 +975,8 @@ def replay(ctx, driver, cc):
         return f"raised {type(e).__name__}"
     if cc.get("want") is not None and r != ev(cc["want"]):
         return f"{v!r} -> {r!r}, expected {cc['want']}"
-    return None
+    # the property's oracle once more on the recorded input
+    sub = Ctx(ctx.pid, ctx.tier, ctx.seed)
+    sink = {"int": ([], [], []), "float": ([], [], [])}
+    judge_num(sub, "num", cc, c.format, c.minValue, c.maxValue, c.minStep, v, "replay", lambda: check_convert_value(v, c), sink)
+    return "; ".join(f"{x['signature']}: {x['what']}" for x in sub.violations[:3]) or None
